@@ -107,20 +107,38 @@ Print Assumptions C20_conc_model_passes.
    [st_att_total], cf. C03_registry_end_releases) and no key resolves to either stream. *)
 Theorem C20_replaced_pull_releases_consumers : forall (p : bytes) (h0 h1 : bool) (ops : list gop),
   In (GUnregist 0) ops -> In (GUnregist 1) ops ->
-  let sp := sexec sinit (GNew p h0 :: GNew p h1 :: ops) in
+  let h := GNew p h0 :: GNew p h1 :: ops in
+  let sp := sexec sinit h in
   (forall i, (i < 2)%nat ->
      st_live (sp_get sp i) = false /\ consumers (sp_get sp i) = 0 /\
-     released (sp_get sp i) = st_att_total (sp_get sp i)) /\
+     released (sp_get sp i) = st_att_total (sp_get sp i) /\
+     C20Replaced.closed_total i h = C20Replaced.attached_total i h) /\
   (forall k, sp_resolve sp k <> Some 0%nat /\ sp_resolve sp k <> Some 1%nat).
 Proof. exact replaced_pull_releases_consumers. Qed.
 Print Assumptions C20_replaced_pull_releases_consumers.
 
-(* the replayed scenarios (Model/C20Replaced.v: consumer on stream 0 / stream 1 or not, either camera
-   ending first) are such histories, well-formed in the sense of C05 (so the implementation model
-   of the registry answers like the specification on them), and the observations the model predicts
-   at the three points meet the demand [ok_repl] that the check applies to the real code *)
+(* attaches AFTER a stream has ended (e.g. the first requester joins the stream it was handed when the
+   second registration has already closed it as replaced): the registry specification ignores them;
+   the code releases such a consumer at once (Stream.startConsume re-checks the status).
+   [attached_total] / [closed_total] (Model/C20Replaced.v) add them to the consumers that joined and to
+   those whose Close was called — the theorem above states their equality at the end — and each such
+   attach moves both by one and leaves nobody attached: *)
+Theorem C20_late_attach_released_at_once : forall h i flv,
+  let sp := sexec sinit h in
+  (i < length (sp_streams sp))%nat -> st_live (sp_get sp i) = false ->
+  C20Replaced.closed_total i (h ++ [GAttach i flv]) = C20Replaced.closed_total i h + 1 /\
+  C20Replaced.attached_total i (h ++ [GAttach i flv]) = C20Replaced.attached_total i h + 1 /\
+  consumers (sp_get (sexec sinit (h ++ [GAttach i flv])) i) = consumers (sp_get sp i).
+Proof. exact late_attach_released_at_once. Qed.
+Print Assumptions C20_late_attach_released_at_once.
+
+(* the replayed scenarios (Model/C20Replaced.v: consumer on stream 0 before / after the replacement or
+   none, consumer on stream 1 or not, either camera ending first) are such histories, well-formed in
+   the sense of C05 (so the implementation model of the registry answers like the specification on
+   them), and the observations the model predicts at the three points meet the demand [ok_repl]
+   that the check applies to the real code *)
 Theorem C20_replaced_model_passes : forall a1 a2 e,
-  C20Replaced.ok_repl a1 a2 e (C20Replaced.repl_model a1 a2 e) = true /\
+  C20Replaced.ok_repl (C20Replaced.attached a1) a2 e (C20Replaced.repl_model a1 a2 e) = true /\
   hist_wf sinit (C20Replaced.repl_phase3 a1 a2 e) = true /\
   In (GUnregist 0) (C20Replaced.repl_phase3 a1 a2 e) /\ In (GUnregist 1) (C20Replaced.repl_phase3 a1 a2 e).
 Proof. exact repl_model_ok. Qed.
